@@ -18,11 +18,17 @@
        models of C02 (aperture photometry), C04 (detect_sources), C17 (centroid_com,
        centroid_sources cutouts), C18 (make_model_image), C19 (profiles) -- imported read-only.
 
-   NOT covered by a theorem (tested only, see harness/c03.py): the star finders, find_peaks,
-   deblend_sources, ApertureStats, the Gaussian / quadratic centroid fits (library numerics or
-   models still being edited: C01, C07, C14, C16 are not imported). *)
+   (C) re-exports / corollaries about the models of C07 (SourceCatalog rows), C07R (shape parameters over
+       the reals), C14 (find_peaks candidates) and C16 (ApertureStats).
+
+   NOT covered by a theorem (tested only, see harness/c03.py): the star finders' measurement columns,
+   deblend_sources, the Gaussian / quadratic centroid fits, Kron / windowed-centroid quantities
+   (library numerics). *)
 From Coq Require Import List ZArith QArith Bool Lia.
-From PV Require Import lib.Cases C03_Model C03_Proofs C03_Links C03_Detect.
+From PV Require Import lib.Cases C03_Model C03_Proofs C03_Links C03_Detect C03_Peaks.
+From PV Require C14_Model C14_Proofs.
+From PV Require C07_Model C07_Proofs C07_Properties C07R_Model C07R_Proofs C07R_Properties
+                C16_Model C16_Proofs C16_Properties.
 From PV Require C02_Model C02_Proofs C02_Properties C04_Model C04_Proofs C04_Properties
                 C17_Model C17_Proofs C17_Properties C18_Model C18_Proofs C18_Properties
                 C19_Model C19_Proofs C19_Properties.
@@ -140,14 +146,14 @@ Print Assumptions segment_bbox_inside.
 (* SourceCatalog pattern: image pixels are (value, label) pairs, canvas padded with (zv, 0); ANY
    measurement of the segment cutout re-based with the slice origin is covariant -- no hypothesis
    left on the box *)
-Theorem catalog_row_shift : forall (V P : Type) (R : P -> P -> Prop) (zv : V) (act : Z -> Z -> P -> P)
+Theorem segment_cutout_measurement_shift : forall (V P : Type) (R : P -> P -> Prop) (zv : V) (act : Z -> Z -> P -> P)
     (f : img (V * Z) -> P) l (a : img (V * Z)) b ny nx dy dx NY NX,
   (forall y0 x0 y1 x1 p, R (act (y0 + y1) (x0 + x1) p) (act y1 x1 (act y0 x0 p))) ->
   l <> 0 -> rect ny nx a -> seg_bbox l (labels_of a) = Some b ->
   R (rebased act (seg_box l) f (embed (zv, 0) dy dx NY NX a))
     (act (Z.of_nat dy) (Z.of_nat dx) (rebased act (seg_box l) f a)).
 Proof. exact (@segment_rebased_gen). Qed.
-Print Assumptions catalog_row_shift.
+Print Assumptions segment_cutout_measurement_shift.
 
 (* ================================================================== *)
 (* (A.4) image moments: centroid and second moments                     *)
@@ -372,6 +378,131 @@ Theorem profile_shift : forall sigma data err umask apers data' err' umask' aper
   C19_Model.photometry data err umask apers = C19_Model.photometry data' err' umask' apers'.
 Proof. exact C19_Properties.profile_shift. Qed.
 Print Assumptions profile_shift.
+
+(* ---------------- C14: find_peaks ---------------- *)
+(* scalar threshold t, padding value z <= t (zero padding, threshold >= 0), no border_width, footprint
+   containing its centre, canvas mask equal to the image mask on the embedded frame: the candidate
+   peaks of the canvas (C14_Model.cands, i.e. find_peaks before the optional npeaks cut) are exactly
+   the translated candidate peaks of the image; [sigma nx dy dx NX p] is the raster index of the canvas
+   pixel holding image pixel p.  Proved here from C14's characterisation cands = peak_spec. *)
+Theorem find_peaks_shift : forall ny nx dy dx NY NX : nat,
+  (0 < nx)%nat -> (dy + ny <= NY)%nat -> (dx + nx <= NX)%nat ->
+  forall (data data' : list (option Z)) (mask mask' : option (list bool)) (fp : list (list bool)) (t z : Z),
+  z <= t ->
+  (forall p, (p < ny * nx)%nat -> C14_Model.dget data' (sigma nx dy dx NX p) = C14_Model.dget data p) ->
+  (forall q, (q < NY * NX)%nat -> (forall p, (p < ny * nx)%nat -> q <> sigma nx dy dx NX p) ->
+     C14_Model.dget data' q = Some z) ->
+  (forall p, (p < ny * nx)%nat -> C14_Model.masked mask' (sigma nx dy dx NX p) = C14_Model.masked mask p) ->
+  forall q, In (0, 0) (C14_Model.offsets fp) ->
+  (In q (C14_Model.cands NY NX data' (C14_Model.TScalar (Some t)) fp mask' None true true) <->
+   exists p, (p < ny * nx)%nat /\ q = sigma nx dy dx NX p /\
+             In p (C14_Model.cands ny nx data (C14_Model.TScalar (Some t)) fp mask None true true)).
+Proof. exact find_peaks_candidates_shift. Qed.
+Print Assumptions find_peaks_shift.
+
+(* the data hypotheses hold for the concrete canvas [embed (Some z)], flattened in raster order *)
+Theorem find_peaks_shift_canvas : forall ny nx dy dx NY NX (d2 : img (option Z)) (z : Z),
+  rect ny nx d2 -> (0 < nx)%nat -> (dy + ny <= NY)%nat -> (dx + nx <= NX)%nat ->
+  (forall p, (p < ny * nx)%nat ->
+     C14_Model.dget (concat (embed (Some z) dy dx NY NX d2)) (sigma nx dy dx NX p) = C14_Model.dget (concat d2) p) /\
+  (forall y x, (y < NY)%nat -> (x < NX)%nat -> ~ ((dy <= y < dy + ny)%nat /\ (dx <= x < dx + nx)%nat) ->
+     C14_Model.dget (concat (embed (Some z) dy dx NY NX d2)) (y * NX + x)%nat = Some z).
+Proof. exact embed_data_hypotheses. Qed.
+Print Assumptions find_peaks_shift_canvas.
+
+(* ---------------- C07: the SourceCatalog row model ---------------- *)
+(* (statements verbatim from C07_Properties.v; vocabulary of C07_Proofs: [mkrow ny nx own det l] is
+   the catalogue row of label l, [shifted_on_label] / [transposed_on_label] say that the second
+   scene shows the pixels of label l displaced by (dy, dx) / with the axes swapped) *)
+Module Cite_C07.
+Import C07_Model C07_Proofs.
+(* bbox, centroid, min/max index move by (dy, dx); every other column is unchanged *)
+Theorem catalog_row_shift : forall ny nx ny' nx' dy dx own own' det det' l,
+  shifted_on_label ny nx ny' nx' dy dx own own' l ->
+  shifted_on_label ny nx ny' nx' dy dx det det' l ->
+  lab_pixels ny nx own l <> [] -> lab_pixels ny nx det l <> [] ->
+  mkrow ny' nx' own' det' l = shift_row dy dx (mkrow ny nx own det l).
+Proof. exact C07_Properties.catalog_row_shift. Qed.
+Print Assumptions catalog_row_shift.
+
+(* bbox and centroid swap their axes, moments M_pq -> M_qp, covariance (sigx2, sigxy, sigy2) ->
+   (sigy2, sigxy, sigx2), sums / areas / extremal values unchanged *)
+Theorem catalog_row_transpose : forall ny nx own own' det det' l,
+  transposed_on_label ny nx own own' l -> transposed_on_label ny nx det det' l ->
+  forget_idx (mkrow nx ny own' det' l) = forget_idx (tr_row (mkrow ny nx own det l)).
+Proof. exact C07_Properties.catalog_row_transpose. Qed.
+Print Assumptions catalog_row_transpose.
+
+(* with pairwise distinct data values on the segment the four extremum indices transpose too *)
+Theorem catalog_row_transpose_indices : forall ny nx own own' det det' l,
+  transposed_on_label ny nx own own' l ->
+  (forall p q, In p (g_S (lab_pixels ny nx own l) (dataat own) (maskat own)) ->
+               In q (g_S (lab_pixels ny nx own l) (dataat own) (maskat own)) ->
+               dataat own p = dataat own q -> p = q) ->
+  let r := mkrow ny nx own det l in
+  let r' := mkrow nx ny own' det' l in
+  r_minidx r' = option_map swap_idx (r_minidx r) /\ r_maxidx r' = option_map swap_idx (r_maxidx r) /\
+  r_cminidx r' = option_map swap_idx (r_cminidx r) /\ r_cmaxidx r' = option_map swap_idx (r_cmaxidx r).
+Proof. exact C07_Properties.catalog_row_transpose_indices. Qed.
+Print Assumptions catalog_row_transpose_indices.
+
+(* the hypotheses hold for the zero-padded canvas / the transposed inputs of C07's own embedding *)
+Theorem catalog_row_shift_hypothesis : forall ny nx dy dx py px I l, l <> 0%Z ->
+  shifted_on_label ny nx (ny + dy + py) (nx + dx + px) dy dx I (C07_Proofs.embed ny nx dy dx I) l.
+Proof. exact C07_Properties.shift_hypothesis_satisfiable. Qed.
+Print Assumptions catalog_row_shift_hypothesis.
+End Cite_C07.
+
+(* ---------------- C16: ApertureStats ---------------- *)
+Module Cite_C16.
+Import C16_Model C16_Proofs.
+(* same pixels, mask and errors under the displaced box: every statistic is unchanged except the
+   centroid and the bounding box, which move by (dy, dx) *)
+Theorem apstats_shift : forall sc sc' a dy dx bkg,
+  same_window sc sc' (a_box a) dy dx ->
+  apstats_one sc' (shift_aper dy dx a) bkg = shift_stats dy dx (apstats_one sc a bkg).
+Proof. exact C16_Properties.apstats_shift. Qed.
+Print Assumptions apstats_shift.
+
+(* the window condition holds whenever box and displaced box lie inside their frames *)
+Theorem shift_window_inside : forall b ny nx ny' nx' dy dx,
+  0 <= iymin b -> iymin b < iymax b <= ny -> 0 <= ixmin b -> ixmin b < ixmax b <= nx ->
+  0 <= iymin b + dy -> iymax b + dy <= ny' -> 0 <= ixmin b + dx -> ixmax b + dx <= nx' ->
+  overlap_slices (shift_box dy dx b) ny' nx'
+  = match overlap_slices b ny nx with
+    | Some (large, small) => Some (shift_slices dy dx large, small)
+    | None => None
+    end.
+Proof. exact C16_Properties.shift_window_inside. Qed.
+Print Assumptions shift_window_inside.
+End Cite_C16.
+
+(* ---------------- C07R: shape parameters over the reals ---------------- *)
+(* (a, b, c) = (sigx2, sigxy, sigy2); transposition maps it to (c, b, a).  These two theorems live in
+   Coq's classical real numbers: Print Assumptions lists the standard-library axioms of Reals. *)
+Module Cite_C07R.
+Import Reals C07R_Model C07R_Proofs.
+Local Open Scope R_scope.
+Theorem orientation_transposes_R : forall a b c,
+  ((a <> c \/ b <> 0) ->
+     orientation c b a = 90 - orientation a b c - (if Rlt_dec b 0 then 180 else 0) /\
+     orientation_rad c b a = PI / 2 - orientation_rad a b c - (if Rlt_dec b 0 then PI else 0) /\
+     exists s, (s = 1 \/ s = -1) /\
+       cos (orientation_rad c b a) = s * sin (orientation_rad a b c) /\
+       sin (orientation_rad c b a) = s * cos (orientation_rad a b c)) /\
+  ((a = c /\ b = 0) -> orientation c b a = 0 /\ orientation a b c = 0).
+Proof. exact C07R_Properties.transpose_orientation. Qed.
+Print Assumptions orientation_transposes_R.
+
+Theorem shape_invariants_transpose_R : forall a b c,
+  eig_plus c b a = eig_plus a b c /\ eig_minus c b a = eig_minus a b c /\
+  semimajor c b a = semimajor a b c /\ semiminor c b a = semiminor a b c /\
+  eccentricity c b a = eccentricity a b c /\ elongation c b a = elongation a b c /\
+  ellipticity c b a = ellipticity a b c /\ fwhm c b a = fwhm a b c /\
+  (PSD c b a <-> PSD a b c).
+Proof. exact C07R_Properties.transpose_invariants. Qed.
+Print Assumptions shape_invariants_transpose_R.
+End Cite_C07R.
 
 (* ================================================================== *)
 (* non-vacuity / concrete instances                                     *)
